@@ -13,7 +13,7 @@ RULE = ("(a) html_escape on EVERY Unicode scalar value (1 112 064 chars, in 272 
         "an alphabet with all special characters, with expression kinds {{x}} {{{x}}} {{&x}} {{lookup ..}} {{eq ..}} and "
         "subexpressions, at top level and inside each/with/if/partials, under html_escape, no_escape and a MARKING escape fn "
         "(wraps its argument in sentinels, so 'exactly once' is visible in the output); oracle = reference renderer; the family of the Lean "
-        "theorem texts_and_tags_render (texts and 1..4 value tags in any mix of {{v}} {{{v}}} {{&v}}, any value; oracle = the theorem's closed form, exact); "
+        "theorem texts_and_tags_render (texts and 1..4 value tags in any mix of {{v}} {{{v}}} {{&v}} {{this.v}} {{this/v}} {{./v}} {{ v }}, any value; oracle = the theorem's closed form, exact); "
         "non-trivial = output contains an escaped or marked value; distinct by output")
 DEFINITE_FLOOR = 0.5
 GENERATED_OBLIGATIONS = ["EscapeTable"]
@@ -58,10 +58,10 @@ def generate(rng, n, tier="quick"):
             src = thm_left(r) if k else thm_right(r)
             exp = src
             for t in range(k):
-                sp = r.pick(["{{v}}", "{{{v}}}", "{{&v}}"])
+                sp = r.pick(["{{v}}", "{{{v}}}", "{{&v}}", "{{this.v}}", "{{this/v}}", "{{./v}}", "{{ v }}"])
                 nxt = thm_right(r) if t == k - 1 else r.pick([thm_left(r), "", " ", "\n", "  \t"])
                 src += sp + nxt
-                exp += (escape_of(esc)(txt) if sp == "{{v}}" else txt) + nxt
+                exp += (txt if sp in ("{{{v}}}", "{{&v}}") else escape_of(esc)(txt)) + nxt
             case = session({"escape": esc}, [], {"api": "render_template", "src": src}, {"v": val, "w": "unused<"})
             case["id"] = "%s-%06d" % (ID, i)
             out.append((case, {"mode": "thm", "expect": exp, "esc": esc}))
